@@ -59,6 +59,8 @@ MUTANTS = [
     ("c10_param_slot_shadow_revert", "C10", "xitorch/_utils/attr.py",     # behaviour before e0a2728
      "                if place is obj._parameters:\n                    obj.__dict__.pop(name, None)\n                place[name] = val\n                return\n",
      "                if place is obj._parameters and not isinstance(val, torch.nn.Parameter):\n                    obj._parameters[name] = None\n                    obj.__dict__[name] = val\n                    return\n                if place is obj._parameters:\n                    obj.__dict__.pop(name, None)\n                place[name] = val\n                return\n", 1),
+    ("c10_class_attr_revert", "C10", "xitorch/_utils/attr.py",   # revert of b99db40
+     "    if getattr(type(obj), name, None) is val:\n", "    if False:\n", 1),
     ("c10_place_based_revert", "C10", "xitorch/_core/pure_function.py",   # revert of 958d5a4
      "            set_attr(self.obj, name, param)  # written into the place where the name lives\n",
      "            del_attr(self.obj, name)\n            set_attr(self.obj, name, param)\n", 1),
